@@ -84,7 +84,7 @@ EvEncode ==
      /\ v_fails' = v_fails
           \cup (IF k \notin {"Ok", "TooMuch", "ListEmpty"} THEN {"C11.panic"} ELSE {})
           \cup (IF (k = "ListEmpty") # (Case.list = <<>>) THEN {"C11.listEmptyIff"} ELSE {})
-          \cup (IF k = "TooMuch" /\ UpperBound >= 0 /\ MinCapFor(ListSet, UpperBound) >= 0
+          \cup (IF k \in {"TooMuch", "ListEmpty"} /\ Case.list # <<>> /\ UpperBound >= 0 /\ MinCapFor(ListSet, UpperBound) >= 0
                 THEN {"C10.tooMuchButPlainFits"} ELSE {})
           \cup (IF k = "Ok" THEN ShapeFails ELSE {})
      /\ v_rd' = IF k = "Ok" /\ Len(Data) > 0 THEN RInit ELSE v_rd
@@ -103,14 +103,18 @@ ReadFinish  == /\ v_rd.status = "run" /\ B256Done(v_rd).pos > Len(Data)
                /\ v_rd' = RStep(v_rd, Data, Inp, En) /\ UNCHANGED <<v_c, v_l, v_fails>>
 
 DecodeOk(res) == res.kind = "Ok" /\ res.bytes = Inp
+\* C16: whatever involves the envelope or the FNC1 start must come back unchanged (compacted or verbatim)
+EnvelopeCase == Case.fnc1 \/ HasHead(Inp) \/ HasTrail(Inp)
 EvDecodeData ==
   /\ IsEvent("DecodeData")
   /\ v_fails' = v_fails \cup (IF Case.eci < 0 /\ ~DecodeOk(Events[v_l].res) THEN {"C01.decodeData"} ELSE {})
+                    \cup (IF Case.eci < 0 /\ EnvelopeCase /\ ~DecodeOk(Events[v_l].res) THEN {"C16.roundTrip"} ELSE {})
                     \cup (IF Events[v_l].res.kind \notin {"Ok", "Err"} THEN {"C05.decodeDataPanic"} ELSE {})
   /\ v_l' = v_l + 1 /\ UNCHANGED <<v_c, v_rd>>
 EvDecodePixels ==
   /\ IsEvent("DecodePixels")
   /\ v_fails' = v_fails \cup (IF Case.eci < 0 /\ ~DecodeOk(Events[v_l].res) THEN {"C01.decodePixels"} ELSE {})
+                    \cup (IF Case.eci < 0 /\ EnvelopeCase /\ ~DecodeOk(Events[v_l].res) THEN {"C16.roundTrip"} ELSE {})
                     \cup (IF Events[v_l].res.kind \notin {"Ok", "Err"} THEN {"C05.decodePixelsPanic"} ELSE {})
   /\ v_l' = v_l + 1 /\ UNCHANGED <<v_c, v_rd>>
 EvPlan ==
@@ -140,6 +144,7 @@ ReaderFails ==
     \cup (IF (Data[1] \in {236, 237}) # MacroDue THEN {"C16.macroIff"} ELSE {})
     \cup (IF Data[1] \in {236, 237} /\ MacroDue /\ Data[1] # MacroCw THEN {"C16.macroKind"} ELSE {})
     \cup (IF (Data[1] = 232) # Case.fnc1 THEN {"C16.fnc1Iff"} ELSE {})
+    \cup (IF EnvelopeCase /\ (v_rd.status = "rej" \/ (v_rd.status = "done" /\ ~(v_rd.ok /\ v_rd.outLen = Len(Inp)))) THEN {"C16.streamContent"} ELSE {})
     \cup (IF v_rd.status = "done" /\ Case.eci >= 0 /\ ~(Len(v_rd.ecis) = 1 /\ v_rd.ecis[1][2] = Case.eci
                                                        /\ v_rd.ecis[1][1] = (IF MacroDue THEN 7 ELSE 0))
           THEN {"C02.eci"} ELSE {})
